@@ -2,4 +2,4 @@ From UV Require Import Lib.Base Model.Accept Model.Connect.
 Require Extraction.
 Require Import ExtrOcamlBasic.
 Extraction Language OCaml.
-Extraction "m_c07.ml" run init held pending_count crun cinit write2 try_write2.
+Extraction "m_c07.ml" run init_v held pending_count crun cinit write2 try_write2.
